@@ -5,8 +5,17 @@ ID = "C02"
 P = "paramiko.packet.Packetizer."
 TARGETS = [(P + "read_message", "any-input-%s-bs%d" % (m, bs), packet_frames.read_contract_c02(m, bs))
            for m, bs in packet_frames.C02_VARIANTS]
-TARGETS += ["paramiko.util.constant_time_bytes_eq", P + "read_all"]
-REPLAY = {"*": "c02.replay_tamper"}
+TARGETS += ["paramiko.util.constant_time_bytes_eq", P + "read_all",
+            # the AEAD nonce: the invocation counter goes up by exactly one per packet and never stays where it is (at the top
+            # of its 64 bits the function raises instead) - a nonce used twice lets whole packets be dropped or replayed
+            (P + "_inc_iv_counter", "own-body", {"+replace": True,
+                "params": {"iv": "bytes"}, "requires": ["len(iv) == 12"], "returns": "bytes", "modifies": [],
+                "ensures": {"fixed_part_kept_and_counter_incremented_by_exactly_one":
+                         "len(result) == 12 and result[0:4] == iv[0:4] and bacc(0, result[4:12]) == bacc(0, iv[4:]) + 1"},
+                # (bacc(0, s) is the big-endian value of the byte string s, the meaning of int.from_bytes / to_bytes)
+                "raises": {"OverflowError": "bacc(0, iv[4:]) >= 2**64 - 1"}})]
+REPLAY = {"*": "c02.replay_tamper", "_inc_iv_counter": "c02.nonce_counter"}
+SEARCH = {"_inc_iv_counter": "c02.nonce_counter"}
 MAX_PATHS = 20000
 
 
@@ -35,7 +44,8 @@ LEVEL_TEXT = ("Proof on the real AST, for an ARBITRARY incoming byte stream (no 
               "before anything was decrypted; AES-GCM: decrypt(nonce_in, all consumed bytes after the length field, aad = "
               "the length field) returned - and the delivered type and body are cut from exactly those authenticated bytes "
               "by the RFC 4253 formula payload = packet[1 : length - padding]. constant_time_bytes_eq(a, b) == (a == b) "
-              "for all byte strings (quantified loop invariant). read_all never returns fewer bytes than asked.")
+              "for all byte strings (quantified loop invariant). read_all never returns fewer bytes than asked. Packetizer._inc_iv_counter (the AEAD nonce) keeps the fixed four bytes and moves the 64-bit invocation counter "
+              "up by exactly one, refusing (OverflowError) at the top instead of reusing a nonce.")
 LEVEL_NOTE = ("Argued on top of those postconditions (cryptographic, not machine-checked): with an unforgeable MAC / ideal "
               "AEAD the only (message, tag) pairs an attacker can present for sequence number k are the sender's k-th "
               "packet, so what is delivered is a prefix of what was sent; a corrupted length in classic mode makes read_all "
